@@ -919,13 +919,18 @@ def load(f, **options):  # type: (typing.IO, **typing.Any) -> canmatrix.CanMatri
                     frame = get_frame_by_id(canmatrix.ArbitrationId.from_compound_integer(int(frame_id)))
                     if frame is not None:
                         signal = frame.signal_by_name(signal_name)
-                        frame.is_complex_multiplexed = True
-                        signal.muxer_for_signal = muxer_for_signal
+                        if signal is None:
+                            raise ValueError("SG_MUL_VAL_ for unknown signal {}".format(signal_name))
+                        # parse the whole line before anything is changed
+                        mux_val_grp = []
                         for muxVal in mux_val_groups:
                             mux_val_min, mux_val_max = muxVal.split("-")
                             mux_val_min_number = int(mux_val_min)
                             mux_val_max_number = int(mux_val_max)
-                            signal.mux_val_grp.append([mux_val_min_number, mux_val_max_number])
+                            mux_val_grp.append([mux_val_min_number, mux_val_max_number])
+                        frame.is_complex_multiplexed = True
+                        signal.muxer_for_signal = muxer_for_signal
+                        signal.mux_val_grp.extend(mux_val_grp)
             elif decoded.startswith("EV_ "):
                 pattern = r"^EV_ +([\S\-\_]+?) *\: +([0-9]+) +\[([0-9.+\-eE]+)\|([0-9.+\-eE]+)\] +\"(.*?)\" +([0-9.+\-eE]+) +([0-9.+\-eE]+) +([\S\-]+?) +(.*); *"
                 regexp = re.compile(pattern)
